@@ -2,30 +2,34 @@
 #include "common.hpp"
 using DeserializationOption::Filter;
 static Arena arena;
-static void build(JsonDocument& f, unsigned shape) {
+// filter documents are built with the low-level API (no proxies / key lookups / recursive clear while building)
+static VariantData* addm0(ObjectData& ob, ResourceManager& rm, const char* key) { StringNode* k = rm.saveString(adaptString(key)); return k ? ob.addMember(k, &rm) : nullptr; }
+static VariantData* adde0(ArrayData& a, ResourceManager& rm) { return a.addElement(&rm); }
+static void build(VariantData& f, ResourceManager& rm, unsigned shape) {
+  VariantData* m;
   switch (shape) {
-    case 0: f.set(true); break;
-    case 1: f.set(false); break;
+    case 0: f.setBoolean(true); break;
+    case 1: f.setBoolean(false); break;
     case 2: break;                                   // null
-    case 3: f.set(1); break;
-    case 4: f.to<JsonObject>(); break;               // {}
-    case 5: f.to<JsonArray>(); break;                // []
-    case 6: f["a"] = true; break;                    // {"a":true}
-    case 7: f["a"] = false; break;                   // {"a":false}
-    case 8: f["*"] = true; break;                    // {"*":true}
-    case 9: f["*"] = true; f["a"] = false; break;    // {"*":true,"a":false}
-    case 10: f["a"]["b"] = true; break;              // {"a":{"b":true}}
-    case 11: f.add(true); break;                     // [true]
-    case 12: f[0]["a"] = true; break;                // [{"a":true}]
-    case 13: f[0][0] = true; break;                  // [[true]]
-    case 14: f["a"] = nullptr; f["*"] = true; break; // {"a":null,"*":true}
+    case 3: f.setInteger(int32_t(1), &rm); break;
+    case 4: f.toObject(); break;                     // {}
+    case 5: f.toArray(); break;                      // []
+    case 6: { ObjectData& o = f.toObject(); if ((m = addm0(o, rm, "a"))) m->setBoolean(true); break; }                    // {"a":true}
+    case 7: { ObjectData& o = f.toObject(); if ((m = addm0(o, rm, "a"))) m->setBoolean(false); break; }                   // {"a":false}
+    case 8: { ObjectData& o = f.toObject(); if ((m = addm0(o, rm, "*"))) m->setBoolean(true); break; }                    // {"*":true}
+    case 9: { ObjectData& o = f.toObject(); if ((m = addm0(o, rm, "*"))) m->setBoolean(true); if ((m = addm0(o, rm, "a"))) m->setBoolean(false); break; }   // {"*":true,"a":false}
+    case 10: { ObjectData& o = f.toObject(); if ((m = addm0(o, rm, "a"))) { ObjectData& i = m->toObject(); VariantData* n = addm0(i, rm, "b"); if (n) n->setBoolean(true); } break; }  // {"a":{"b":true}}
+    case 11: { ArrayData& a = f.toArray(); if ((m = adde0(a, rm))) m->setBoolean(true); break; }                          // [true]
+    case 12: { ArrayData& a = f.toArray(); if ((m = adde0(a, rm))) { ObjectData& i = m->toObject(); VariantData* n = addm0(i, rm, "a"); if (n) n->setBoolean(true); } break; }  // [{"a":true}]
+    case 13: { ArrayData& a = f.toArray(); if ((m = adde0(a, rm))) { ArrayData& i = m->toArray(); VariantData* n = adde0(i, rm); if (n) n->setBoolean(true); } break; }       // [[true]]
+    case 14: { ObjectData& o = f.toObject(); addm0(o, rm, "a"); if ((m = addm0(o, rm, "*"))) m->setBoolean(true); break; } // {"a":null,"*":true}
   }
 }
 static unsigned bits(Filter x) { return (x.allow() ? 1u : 0u) | (x.allowArray() ? 2u : 0u) | (x.allowObject() ? 4u : 0u) | (x.allowValue() ? 8u : 0u); }
 struct FOut { unsigned self, key, idx, key_key, idx_key, idx_idx; };
 W void w_filter(unsigned shape, const char* key, FOut* o) {
-  arena.reset(); JsonDocument f(&arena); build(f, shape);
-  Filter root(f.as<JsonVariantConst>());
+  arena.reset(); ResourceManager rm(&arena); VariantData fv; build(fv, rm, shape);
+  Filter root(JsonVariantConst(&fv, &rm));
   o->self = bits(root); o->key = bits(root[key]); o->idx = bits(root[0UL]);
   o->key_key = bits(root[key]["b"]); o->idx_key = bits(root[0UL][key]); o->idx_idx = bits(root[0UL][0UL]);
 }
